@@ -30,6 +30,7 @@ def run(ck, fb):
     r10f(ck, fb)
     r10g(ck, fb)
     r10h(ck, fb)
+    r10i(ck, fb)
 
 
 def r10a(ck, fb):
@@ -388,3 +389,22 @@ def op_place_local(op):
     from rn.facts import op_place, pl_local
     p = op_place(op)
     return pl_local(p) if p is not None else -1
+
+
+def r10i(ck, fb, R='R10i'):
+    ck.rule(R, '"notified of every later change": ConfigListener::notify answers EVERY long-poll registered for the key - the loop over the key\'s '
+               'id list has no way out other than the end of the list (no break / return inside it), so an id whose sender is already gone (answered for '
+               'another key, timed out) only skips itself. The id list is in registration order, not in expiry order: stopping at the first dead id '
+               'leaves the older polls waiting on the stale md5 until their timeout')
+    b = ck.body('rnacos::config::core::ConfigListener::notify', R)
+    if not b:
+        return
+    snd = [x for x in b.sites if re.search(r'oneshot::Sender::<T>::send$|Sender.*::send$', x.callee or '')]
+    ck.floor(R, 'answers sent in ConfigListener::notify', len(snd), 1)
+    for s0 in snd:
+        ex = util.loop_early_exits(b, s0.bb)
+        ck.require(ex is not None, R, 'notify:answers-in-a-loop', s0.where(), 'the answer is not sent from a loop over the registered ids')
+        if ex is not None:
+            ck.require(not ex, R, 'notify:visits-every-id', b.where(ex[0][0]) if ex else s0.where(),
+                       'the loop over the ids registered for the key can be left before the end of the list (edges %s): the remaining long-polls of the key are '
+                       'not answered for this change' % ex, 'no early exit')
